@@ -10,7 +10,7 @@ denotes (association list, distinct keys, `specAdd` overwrites or appends, `spec
 Statement of the property, clause by clause — every theorem is for ALL histories, ALL queries,
 any character type with a decidable strict total order, any value type:
   (a) no operation of any history traps                               C28_history_no_trap
-  (b) getLongest = longest stored prefix with its latest value        C28_getLongest, C28_table (+ C28_longestPrefix_some/none,
+  (b) getLongest = longest stored prefix with its latest value        C28_getLongest, C28_table (+ C28_longestPrefix_some/none/terminator,
                                                                       C28_spec_* : what "stored" and "latest" mean)
   (c) get / has succeed exactly for stored keys                       C28_get, C28_has, C28_has_sized, C28_has_char
   (d) size() counts the stored keys                                   C28_size (+ C28_spec_distinct_keys), C28_isEmpty
@@ -118,6 +118,41 @@ theorem C28_longestPrefix_some (M : List (List α × V)) (q : List α) (n : Nat)
 theorem C28_longestPrefix_none (M : List (List α × V)) (q : List α) :
     longestPrefix M q = none ↔ ∀ m, m ≤ q.length → lookup (q.take m) M = none := by
   rw [longestPrefix, longestPrefix_go_eq, longestTake_none_iff]
+
+/-- why the C-string entry point `getLongest(const char*)` (length `INT_MAX`, used by the
+    tokenizer on the rest of the source text) is sound: if the terminator `z` occurs in no stored
+    key, nothing from the terminator on influences the answer -/
+theorem C28_longestPrefix_terminator (M : List (List α × V)) (q rest : List α) (z : α)
+    (hz : ∀ e ∈ M, z ∉ e.1) : longestPrefix M (q ++ z :: rest) = longestPrefix M q := by
+  have hshort : ∀ m, m ≤ q.length → (q ++ z :: rest).take m = q.take m :=
+    fun m hm => List.take_append_of_le_length hm
+  have hlong : ∀ m, q.length < m → lookup ((q ++ z :: rest).take m) M = none := by
+    intro m hm
+    rw [lookup_eq_none_iff]
+    intro hmem
+    simp only [List.mem_map] at hmem
+    obtain ⟨e, he, hek⟩ := hmem
+    apply hz e he
+    rw [hek, List.take_append]
+    have : m - q.length = (m - q.length - 1) + 1 := by omega
+    rw [this, List.take_succ_cons]
+    simp
+  cases h : longestPrefix M q with
+  | none =>
+    rw [C28_longestPrefix_none] at h ⊢
+    intro m _
+    by_cases hm : m ≤ q.length
+    · rw [hshort m hm]; exact h m hm
+    · exact hlong m (by omega)
+  | some r =>
+    obtain ⟨n, v⟩ := r
+    rw [C28_longestPrefix_some] at h ⊢
+    obtain ⟨hn, hl, hmax⟩ := h
+    refine ⟨by simp; omega, by rw [hshort n hn]; exact hl, ?_⟩
+    intro m hnm _
+    by_cases hm : m ≤ q.length
+    · rw [hshort m hm]; exact hmax m hnm hm
+    · exact hlong m (by omega)
 
 end Spec
 
